@@ -1,11 +1,11 @@
 SPECIFICATION Spec
 CONSTANTS MaxLen = 4
-  Pool <- Pool3U
-  Starts <- StartsAll
+  Pool <- PoolK
+  Starts <- StartsK
   Xs = {2}
-  Nested = TRUE
-  Ys <- NoData
-  Extra <- NoElems
+  Nested = FALSE
+  Ys <- DataK
+  Extra <- ExtraK
   Variant = "doc"
   CopyVarContext = TRUE
   ExtendByCompose = TRUE
